@@ -50,14 +50,16 @@
 // mpz_probab_prime_p is interposed (the executable's definition pre-empts libgmp's, the real one is reached through
 // dlsym(RTLD_NEXT)): while `primelog.on`, every call is recorded as (candidate, answer) — the primality oracle of
 // rabin.generate lines.
-struct PrimeLog { bool on = false; std::vector<std::pair<std::string, int> > calls; };
-static PrimeLog primelog;
+// (shared with drv_primegen.cc, which declares the same two structs and `extern PrimeLog primelog`)
+struct PrimeCall { std::string n; int reps; int ans; };
+struct PrimeLog { bool on = false; std::vector<PrimeCall> calls; };
+PrimeLog primelog;
 extern "C" int mpz_probab_prime_p(mpz_srcptr n, int reps) __GMP_NOTHROW
 {
 	typedef int (*fn_t)(mpz_srcptr, int);
 	static fn_t real = (fn_t)dlsym(RTLD_NEXT, "__gmpz_probab_prime_p");
 	int r = real(n, reps);
-	if (primelog.on) primelog.calls.push_back(std::make_pair(zs(n), r));
+	if (primelog.on) { PrimeCall c; c.n = zs(n); c.reps = reps; c.ans = r; primelog.calls.push_back(c); }
 	return r;
 }
 
@@ -733,7 +735,7 @@ static void make_key(std::vector<KeyCtx> &ks, const char *name, unsigned long bi
 	{
 		size_t mn = mnsize_of(k.sk->m); std::string data = selfdata(*k.pk);
 		std::string ol = cap_olog([&](const std::string &x) { return (x.size() == MD) ? mn - MD : mn; }, &data);
-		std::string pl = "["; for (size_t i = 0; i < primelog.calls.size(); i++) { if (i) pl += ","; pl += primelog.calls[i].first + ":" + (primelog.calls[i].second ? "1" : "0"); } pl += "]";
+		std::string pl = "["; for (size_t i = 0; i < primelog.calls.size(); i++) { if (i) pl += ","; pl += primelog.calls[i].n + ":" + (primelog.calls[i].ans ? "1" : "0"); } pl += "]";
 		emit("rabin.generate " + hexs(std::string(name)) + " " + hexs(email) + " " + std::to_string(bits) + " " + b2s(nizk) + " 10000000 " + coin_bytes_hex(ges) + " " + pl + " " + ol +
 			" tag:honest => " + hexs(sectext(*k.sk)));
 		emit("prop.rabin generate bits=" + std::to_string(bits) + " nizk=" + b2s(nizk) + " primecalls=" + std::to_string(primelog.calls.size()) + " coins=" + std::to_string(ges.size()) + " tag:honest => check=" + b2s(k.sk->check()));
